@@ -85,6 +85,7 @@ type env struct {
 	repl     *strings.Replacer
 	log      *hx.Log
 	tbl      *table.Table // reused by consecutive cases as long as the cleanup emptied it
+	curH     int
 }
 
 func newEnv(evPath string) *env {
@@ -173,15 +174,19 @@ func (e *env) counts() counts {
 	return c
 }
 
-// quiesce polls until the connections have taken everything from their channels and neither a counter of the
-// relay nor the sinks moved for a few consecutive polls; false if that did not happen within d
+// quiesce polls until neither a counter of the relay, nor the number of lines waiting in connection channels,
+// nor the sinks moved for a few consecutive polls; false if that did not happen within d
 func (e *env) quiesce(d time.Duration) bool {
 	deadline := time.Now().Add(d)
 	last, same := e.counts(), 0
+	var m0 map[string]int64
+	if os.Getenv("VERIF_ADM_DEBUG") != "" {
+		m0 = rawCounts()
+	}
 	for {
 		time.Sleep(2 * time.Millisecond)
 		c := e.counts()
-		if c == last && c.buffered <= 0 {
+		if c == last {
 			if same++; same >= 3 {
 				return true
 			}
@@ -189,9 +194,31 @@ func (e *env) quiesce(d time.Duration) bool {
 			last, same = c, 0
 		}
 		if time.Now().After(deadline) {
+			if m0 != nil {
+				var moved []string
+				for k, v := range rawCounts() {
+					if v != m0[k] {
+						moved = append(moved, fmt.Sprintf("%s:%d->%d", k, m0[k], v))
+					}
+				}
+				e.emit(ev{"ev": "debug", "h": e.curH, "moved": moved, "buffered": c.buffered})
+			}
 			return false
 		}
 	}
+}
+
+func rawCounts() map[string]int64 {
+	m := map[string]int64{}
+	metrics.DefaultRegistry.Each(func(name string, i interface{}) {
+		switch x := i.(type) {
+		case metrics.Counter:
+			m[name] = x.Count()
+		case metrics.Gauge:
+			m[name] = x.Value()
+		}
+	})
+	return m
 }
 
 type ev map[string]interface{}
@@ -272,14 +299,12 @@ func (cr *caseRun) rulePump() ev {
 	}
 	e.quiesce(time.Second)
 	c0 := e.counts()
-	anyAgg, anyRew := false, false
+	anyAgg := false
 	var rules []interface{}
 	for _, st := range cr.rules {
 		rules = append(rules, ev{"op": st.Cmd.Op, "via": st.Cmd.Via, "val": st.Cmd.Val})
 		if st.IsAgg {
 			anyAgg = true
-		} else {
-			anyRew = true
 		}
 	}
 	dispatch := func(round int) {
@@ -290,25 +315,19 @@ func (cr *caseRun) rulePump() ev {
 		}
 	}
 	dispatch(0)
-	handled := func(c counts) int64 { return (c.badPickle - c0.badPickle) + (c.out - c0.out) + (c.drop - c0.drop) }
+	// Dispatch hands a rewritten line to the destinations synchronously (unbuffered channels), the connection
+	// then takes it from its own channel: quiesce() below covers that.  The result of an aggregation appears
+	// at its next flush (the next whole second) and is then routed the same way: wait for the flush first.
 	reached := true
-	if nsink > 0 {
-		deadline := time.Now().Add(3 * time.Second)
-		if anyAgg {
-			deadline = time.Now().Add(4500 * time.Millisecond)
-		}
-		for round := 1; ; round++ {
-			c := e.counts()
-			// rewriters act at once; an aggregation result appears after its flush and then has to be handled as well
-			if handled(c) > 0 && (!anyAgg || c.aggOut > c0.aggOut) && (anyRew || c.aggOut > c0.aggOut) {
-				break
-			}
+	if anyAgg && nsink > 0 {
+		deadline := time.Now().Add(4500 * time.Millisecond)
+		for round := 1; e.counts().aggOut == c0.aggOut; round++ {
 			if time.Now().After(deadline) {
 				reached = false
 				break
 			}
 			time.Sleep(5 * time.Millisecond)
-			if anyAgg && round%40 == 0 { // keep feeding the current second
+			if round%40 == 0 { // keep feeding the current second
 				dispatch(round)
 			}
 		}
@@ -461,6 +480,7 @@ func (cr *caseRun) pump(n int) {
 func (cr *caseRun) run() int {
 	e, cc := cr.e, cr.cc
 	h := cc.H
+	e.curH = h
 	e.emit(ev{"ev": "hist", "h": h})
 	spool := filepath.Join(e.dir, fmt.Sprintf("spool%d", h))
 	os.MkdirAll(spool, 0755)
